@@ -73,7 +73,7 @@ Definition codegen_rv_case (i r : sexp) : verdict :=
           | L [A "PANIC"; Q msg] =>
               match m with
               | Err _ => VOk ("panic-agree " ++ (if prog_has_print p then "print" else "capacity"))
-              | Ok _ => VDiff (show (s_res_rcodes m)) (show r)
+              | Ok _ => diff_window_b (show (s_res_rcodes m)) (show r)
               end
           | L [cs; n; Q text] =>
               match g_ritems cs, getN n with
@@ -81,7 +81,7 @@ Definition codegen_rv_case (i r : sexp) : verdict :=
                   let cs := codes_of items in
                   let r' := L [L (map s_rcode cs); sN n] in
                   if negb (String.eqb (into_rv64_routine items) text)
-                  then VDiff (show (Q (into_rv64_routine items))) (show (Q text))
+                  then diff_window_b (show (Q (into_rv64_routine items))) (show (Q text))
                   else
                   match m with
                   | Ok (mc, _, _) =>
@@ -89,7 +89,7 @@ Definition codegen_rv_case (i r : sexp) : verdict :=
                       | VOk _ => VOk (rv_tags mc ++ " live" ++ n_to_string (N.of_nat (max_live p)))
                       | v => v
                       end
-                  | Err _ => VDiff (show (s_res_rcodes m)) (show r')
+                  | Err _ => diff_window_b (show (s_res_rcodes m)) (show r')
                   end
               | _, _ => VBad "rust output unreadable"
               end
